@@ -695,8 +695,8 @@ def verify_unit(unit, seed=0, rlimit=None, do_canary=True, mutant=None):
         if vac:
             an["undecided"].append("vacuity canary: `ensures false` verified for " + ", ".join(vac))
         # canary tool errors (other than the expected failures) indicate a broken unit
-        for u in cundec:
-            if not u.startswith("solver"):
+        for u in sorted(set(cundec)):
+            if not u.startswith("solver") and u not in an["undecided"]:
                 an["undecided"].append("canary: " + u)
     r["wall"] = time.time() - t0
     return r
@@ -967,7 +967,11 @@ def load_mutants(unit):
 
 def resolve_item_id(A, short):
     for i in A.items:
-        if i["id"] == short or i["id"].endswith(short) or i["path"].endswith(short):
+        if i["id"] == short or i["path"] == short:
+            return i["id"]
+    for i in A.items:
+        pth = i["path"]
+        if pth.endswith(short) and (len(pth) == len(short) or not (pth[-len(short) - 1].isalnum() or pth[-len(short) - 1] == "_")):
             return i["id"]
     return None
 
